@@ -135,7 +135,8 @@ pub fn run(tier: &str) {
                 if w.is_some() {
                     // a window only adds the search: allow a logarithmic term
                     if let Some(b) = &base {
-                        let lg = ((nb as f64) / (sizes[0] as f64)).log2().max(0.0) as usize;
+                        // the search itself touches about log2(size in blocks) blocks, whatever the smallest size of the series is
+                        let lg = (nb as f64).log2().max(0.0).ceil() as usize;
                         if marks.blocks_highest > b.blocks_highest + 4 + 2 * lg + if *cont == "plain" { aligned } else { 0 } {
                             rep.violation(
                                 json!({"symptom":"grows-windowed","mark":"blocks","shape":shape,"container":cont}),
